@@ -4,10 +4,10 @@
   Model and invariants as for C07 (`BB.PubSub.sys`, `PInv1`, `PInv2`).  Proved here: what a Send returns, who is
   served, that nobody is served twice in a round, that Send returns only after every receiver acknowledged, that
   Sends are serialised (one global order: the ghost `log`) and that a Send with nobody subscribed returns 0 at once.
-  NOT proved (open): that each subscription sees a contiguous run of the global order (only checked dynamically by the
-  trace acceptance, which replays every received value against the model's current Send).
+  Order: `PInv3` (BB/Proofs/PubSub4.lean) — every subscription expects exactly the next position of the global order;
+  `received_message_is_next_in_order` is the contiguity / no-duplicate / no-stale-message statement.
 -/
-import BB.Proofs.PubSub3
+import BB.Proofs.PubSub4
 
 namespace BB.Props.C06
 open BB.LTS BB.PubSub BB.Caster BB.Fun
@@ -81,6 +81,48 @@ theorem send_zero_when_nobody (s : St) (a v : Nat) (hi : (s.senders a).pc = .idl
   · simp only [sys, step, hi, hp, and_self, ↓reduceIte, h0]
   · simp [setSender]
   · simp [setSender]
+
+/-- ORDER. The message a subscriber receives is the LAST element of the global order `log` (the Send being served),
+    and its position is exactly the one this subscription expects next: `nextSeq` was set to `log.length + 1` when
+    the subscription was made (so nothing armed earlier — in particular no Send that had already returned — can reach
+    it) and is advanced by one at every reception.  Hence within one subscription the received positions are
+    consecutive: no gap, no duplicate, one global order for everybody. -/
+theorem received_message_is_next_in_order (s s' : St) (hr : Reach sys s) (a t : Nat) (hs : sys.step s (.recv a t) = some s') :
+    (s.subs t).nextSeq = s.log.length ∧ s.log.getLast? = some (s.senders a).val ∧
+    (s'.subs t).cur = (s.senders a).val ∧ (s'.subs t).nextSeq = s.log.length + 1 := by
+  obtain ⟨h1, h2, h3⟩ := pinv123_reach s hr
+  simp only [sys, step] at hs
+  split at hs
+  · rename_i g; obtain ⟨g1, g2, g3⟩ := g; cases hs
+    have ho := h2.idleOwes ⟨a, by simp [g1, inA]⟩ t (Or.inl g3)
+    refine ⟨h3.ordA t a (by simp [g3, pcIn]) ho g1, h3.lastIs a g1, ?_, ?_⟩
+    · by_cases e : t = t <;> simp [setSender, setSub, upd_apply]
+    · simp [setSender, setSub, upd_apply]
+  · cases hs
+
+/-- a new subscription expects the position after everything armed so far -/
+theorem subscription_starts_after_current_log (s s' : St) (t : Nat) (hs : sys.step s (.subInc t) = some s') :
+    (s'.subs t).nextSeq = s.log.length + 1 ∧ s'.log = s.log := by
+  simp only [sys, step] at hs
+  split at hs
+  · cases hs; simp [setSub, upd_apply]
+  · cases hs
+
+/-- the global order only grows, by the value of the Send that arms -/
+theorem global_order_grows_by_arming (s s' : St) (act : Act) (hs : sys.step s act = some s') :
+    s'.log = s.log ∨ ∃ a, act = .ccas a ∧ s'.log = s.log ++ [(s.senders a).val] := by
+  cases act <;> simp only [sys, step] at hs
+  case ccas a =>
+    split at hs
+    · split at hs
+      · split at hs
+        · cases hs; exact Or.inr ⟨a, rfl, rfl⟩
+        · cases hs
+      · cases hs; exact Or.inl rfl
+    · cases hs
+  all_goals
+    first
+      | (split at hs <;> first | (cases hs; exact Or.inl rfl) | (split at hs <;> first | (cases hs; exact Or.inl rfl) | (split at hs <;> first | (cases hs; exact Or.inl rfl) | cases hs) | cases hs) | cases hs)
 
 unseal subOne in
 /-- non-vacuity: two subscribers, one Send; one receives, the other unsubscribes in the middle of the Send and
